@@ -114,7 +114,7 @@ def check_normalize(case, ctx):
     kinds_all = []
     for descs in case["params"]:
         # parameters correspond by knot index / span fraction; the 'other direction' class does not correspond
-        descs = [(["in"] + list(x[1:])) if x[0] == "other" else x for x in descs]
+        descs = [(["in"] + list(x[1:3])) if x[0] in ("other", "near") else x for x in descs]
         uN, kinds = build.resolve_params(N, descs)
         uF, _ = build.resolve_params(Fo, descs)
         kinds_all += kinds
@@ -161,7 +161,7 @@ def check_normalize(case, ctx):
         k = case["k"] % pd
         degs = d["degree"]
         if op == "insert":
-            ins = (["in"] + list(case["ins"][1:])) if case["ins"][0] == "other" else case["ins"]
+            ins = (["in"] + list(case["ins"][1:])) if case["ins"][0] in ("other", "near") else case["ins"]
             pickN = pick_insert(degs[k], build.kvs_of(N)[k], build.sizes_of(N)[k], ins)
             pickF = pick_insert(degs[k], build.kvs_of(Fo)[k], build.sizes_of(Fo)[k], ins)
             if pickN is None or pickF is None or pickN[1:] != pickF[1:]:
@@ -184,7 +184,7 @@ def check_normalize(case, ctx):
         ctx.check(_rel_eq([list(p) for p in N.evalpts], [list(p) for p in Fo.evalpts]), "normalize-op-shape", "shape after %s differs between the two settings" % op)
     elif op == "split" and pd < 3:
         k = case["k"] % pd
-        ins = (["in"] + list(case["ins"][1:3])) if case["ins"][0] == "other" else case["ins"][:3]
+        ins = (["in"] + list(case["ins"][1:3])) if case["ins"][0] in ("other", "near") else case["ins"][:3]
         uN, kind = build.resolve_param(d["degree"][k], build.kvs_of(N)[k], build.sizes_of(N)[k], ins)
         uF, _ = build.resolve_param(d["degree"][k], build.kvs_of(Fo)[k], build.sizes_of(Fo)[k], ins)
         if kind in ("start", "end"):
@@ -213,7 +213,8 @@ def _procs_cases(draw, tier):
     if what == "tessellate":
         n = draw(st.integers(1, 4))
         shapes = [draw(gen.spline(kinds=("surface",), dims=(3,), max_p=2, max_extra=2, different=True)) for _ in range(n)]
-        return {"what": what, "shapes": shapes, "n": draw(st.integers(2, 6)), "procs": draw(st.sampled_from([2, 4, 8]))}
+        return {"what": what, "shapes": shapes, "n": draw(st.sampled_from([2, 4, 6])), "procs": draw(st.sampled_from([2, 4, 8])),
+                "spacing": draw(st.sampled_from([1, 2]))}
     d = draw(gen.spline(kinds=("surface", "volume"), max_p=2, max_extra=2, vol_max_p=1, vol_max_extra=2, distinct=True))
     return {"what": what, "shapes": [d], "grid": [draw(st.sampled_from([3, 5, 7, 2, 4, 6])) for _ in range(3)], "n": draw(st.integers(2, 4)),
             "procs": draw(st.sampled_from([2, 4, 8]))}
@@ -227,9 +228,10 @@ def check_num_procs(case, ctx):
         def run(k):
             c = multi.SurfaceContainer(*[build.make(d) for d in case["shapes"]])
             c.delta = 1.0 / case["n"]
-            c.tessellate(num_procs=k)
+            c.tessellate(num_procs=k, vertex_spacing=case.get("spacing", 1))
             return ([[v.id, list(v.uv), list(v.data)] for v in c.vertices], [[f.id, list(f.data)] for f in c.faces])
         ctx.nt(len(case["shapes"]) >= 2 and len(set(tuple(d["size"]) for d in case["shapes"])) >= 2, ">=2-surfaces-different-sizes")
+        ctx.nt(case.get("spacing", 1) > 1, "tessellation-keyword")
         base = run(1)
         got = run(procs)
         ctx.check(got[0] == base[0], "num_procs-tessellate-vertices", "vertices with num_procs=%d differ from num_procs=1 (%d vs %d vertices)" % (procs, len(got[0]), len(base[0])))
